@@ -276,8 +276,9 @@ def write_evidence(check, tier, seed, agg, wall, violations, known_hits, capped)
         "wall_s": round(wall, 3),
         "violations": violations,
     }
-    os.makedirs(os.path.join(VERIF, "evidence"), exist_ok=True)
-    path = os.path.join(VERIF, "evidence", "%s.json" % check.id)
+    evdir = os.environ.get("VERIF_EVIDENCE_DIR") or os.path.join(VERIF, "evidence")
+    os.makedirs(evdir, exist_ok=True)
+    path = os.path.join(evdir, "%s.json" % check.id)
     with open(path + ".tmp", "w") as f:
         json.dump(ev, f, indent=1, sort_keys=True)
     os.replace(path + ".tmp", path)
@@ -285,7 +286,7 @@ def write_evidence(check, tier, seed, agg, wall, violations, known_hits, capped)
 
 
 def write_replay(check, clause, case, detail, original=None):
-    d = os.path.join(VERIF, "replays", check.id)
+    d = os.path.join(os.environ.get("VERIF_REPLAY_DIR") or os.path.join(VERIF, "replays"), check.id)
     os.makedirs(d, exist_ok=True)
     body = {
         "property_id": check.id,
